@@ -156,6 +156,33 @@ pub fn to_precision_str(value: f64, precision: usize) -> String {
     if let Some(stripped) = text.strip_suffix(".0") {
         return stripped.to_string();
     }
+    // It also switches to exponent notation earlier than js does (1e-5, 1e16): like js we use
+    // plain digits for 1e-7 <= |value| < 1e21, so that typing the text back is typing a plain number
+    if let Some((mantissa, exponent)) = text.split_once('e') {
+        if let Ok(exponent) = exponent.parse::<i32>() {
+            if (-7..21).contains(&exponent) {
+                let negative = mantissa.starts_with('-');
+                let mantissa = mantissa.trim_start_matches('-');
+                let integer_len = mantissa.split('.').next().map(|s| s.len()).unwrap_or(1) as i32;
+                let digits: String = mantissa.chars().filter(|c| c.is_ascii_digit()).collect();
+                let digits = if mantissa.contains('.') {
+                    digits.trim_end_matches('0').to_string()
+                } else {
+                    digits
+                };
+                let digits = if digits.is_empty() { "0".to_string() } else { digits };
+                let point = integer_len + exponent;
+                let body = if point <= 0 {
+                    format!("0.{}{}", "0".repeat((-point) as usize), digits)
+                } else if point as usize >= digits.len() {
+                    format!("{}{}", digits, "0".repeat(point as usize - digits.len()))
+                } else {
+                    format!("{}.{}", &digits[..point as usize], &digits[point as usize..])
+                };
+                return if negative { format!("-{body}") } else { body };
+            }
+        }
+    }
     text.to_string()
 }
 
